@@ -484,6 +484,12 @@ impl<T: Eq + Hash> FrequentItemsSketch<T> {
         if lg_cur > lg_max {
             return Err(Error::deserial("lg_cur_map_size exceeds lg_max_map_size"));
         }
+        const LG_MAX_MAP_SIZE_LIMIT: u8 = 30;
+        if lg_max > LG_MAX_MAP_SIZE_LIMIT {
+            return Err(Error::deserial(format!(
+                "lg_max_map_size must be at most {LG_MAX_MAP_SIZE_LIMIT}, got {lg_max}"
+            )));
+        }
 
         let is_empty = (flags & EMPTY_FLAG_MASK) != 0;
         if is_empty {
@@ -504,13 +510,35 @@ impl<T: Eq + Hash> FrequentItemsSketch<T> {
             .map_err(insufficient_data("stream_weight"))?;
         let offset_val = cursor.read_u64_le().map_err(insufficient_data("offset"))?;
 
+        // A sketch never holds more items than 3/4 of its current map, and every item has an
+        // 8-byte count in the image: check both before allocating anything by these numbers.
+        let lg_cur_eff = lg_cur.max(LG_MIN_MAP_SIZE);
+        let capacity = (1usize << lg_cur_eff) * LOAD_FACTOR_NUMERATOR / LOAD_FACTOR_DENOMINATOR;
+        if active_items > capacity {
+            return Err(Error::deserial(format!(
+                "{active_items} active items exceed the capacity {capacity} of the current map"
+            )));
+        }
+        if active_items.saturating_mul(8) > cursor.remaining() {
+            return Err(Error::insufficient_data("weights"));
+        }
+        if offset_val > stream_weight {
+            return Err(Error::deserial("offset exceeds the stream weight"));
+        }
+
         let mut values = Vec::with_capacity(active_items);
+        let mut sum_of_values = 0u64;
         for i in 0..active_items {
             values.push(cursor.read_u64_le().map_err(|_| {
                 Error::insufficient_data(format!(
                     "expected {active_items} weights, failed at index {i}"
                 ))
             })?);
+            // the counters are lower bounds of disjoint parts of the stream
+            sum_of_values = sum_of_values
+                .checked_add(values[i])
+                .filter(|sum| *sum <= stream_weight)
+                .ok_or_else(|| Error::deserial("counters exceed the stream weight"))?;
         }
 
         let items = deserialize_items(cursor, active_items)?;
